@@ -82,10 +82,26 @@ fn runtime() -> &'static tokio::runtime::Runtime {
     })
 }
 
+/// bind(127.0.0.1:0) with real-time retries: when other checks running on the machine have
+/// momentarily used up the ephemeral ports (TIME_WAIT), wait instead of failing the case.
+fn bind_loopback_retry() -> std::net::TcpListener {
+    let t0 = std::time::Instant::now();
+    loop {
+        match std::net::TcpListener::bind("127.0.0.1:0") {
+            Ok(l) => return l,
+            Err(e) if t0.elapsed() < std::time::Duration::from_secs(120) => {
+                let _ = e;
+                std::thread::sleep(std::time::Duration::from_millis(250));
+            }
+            Err(e) => panic!("bind loopback: {e}"),
+        }
+    }
+}
+
 impl Wire {
     pub(crate) fn new() -> Self {
         let rt = runtime();
-        let listener = std::net::TcpListener::bind("127.0.0.1:0").expect("bind loopback");
+        let listener = bind_loopback_retry();
         let addr = listener.local_addr().unwrap();
         let stream = rt.block_on(TcpStream::connect(addr)).expect("connect loopback");
         let (server, _) = listener.accept().expect("accept loopback");
@@ -202,7 +218,7 @@ impl Serve {
             .enable_all()
             .build()
             .expect("tokio runtime");
-        let listener = std::net::TcpListener::bind("127.0.0.1:0").expect("bind loopback");
+        let listener = bind_loopback_retry();
         let addr = listener.local_addr().unwrap();
         let stream = rt.block_on(TcpStream::connect(addr)).expect("connect loopback");
         let (server, _) = listener.accept().expect("accept loopback");
